@@ -715,14 +715,15 @@ class ListenerRequestHandler(BaseHTTPRequestHandler):
 
         if methodname == 'ExportIndication':
 
-            if len(params) != 1 or 'NewIndication' not in params:
+            param_names = [name for name, _ in params]
+            if param_names != ['NewIndication']:
                 self.send_error_response(
                     msgid, methodname, CIM_ERR_INVALID_PARAMETER,
                     _format("Expecting one parameter NewIndication, got {0!A}",
-                            params.keys()))
+                            param_names))
                 return
 
-            indication_inst = params['NewIndication']
+            indication_inst = params[0][1]
 
             if not isinstance(indication_inst, CIMInstance):
                 self.send_error_response(
@@ -856,6 +857,10 @@ class ListenerRequestHandler(BaseHTTPRequestHandler):
         """
         Parse a CIM-XML export request message, and return
         a tuple(msgid, methodname, params).
+
+        params is a list of tuple(name, value) with the parameters in the
+        order of the request, so that a parameter that is specified more than
+        once can be detected.
         """
 
         # Parse the XML into a tuple tree (may raise CIMXMLParseError or
@@ -890,9 +895,7 @@ class ListenerRequestHandler(BaseHTTPRequestHandler):
                         tup_tree[0]))
 
         methodname = tup_tree[1]['NAME']
-        params = {}
-        for name, obj in tup_tree[2]:
-            params[name] = obj
+        params = list(tup_tree[2])
 
         return (msgid, methodname, params)
 
